@@ -11,27 +11,34 @@
        AsIs = FALSE  what the property requires (key covers every argument that shapes the model; cached objects are not mutated). *)
 EXTENDS Naturals, Sequences, FiniteSets, TLC, Json
 
-CONSTANTS Grammars, Names, Sems, AsIs, MaxCalls, MaxHandles
+CONSTANTS Grammars, Names, Sems, AsIs, MaxCalls, MaxHandles,
+          Colliding    \* grammars one of whose rule types has the name of a class of the grammar-model library itself (Token, Rule, ...)
 NoSem == "none"
 NoName == "none"
 
 Calls == [op : {"compile"}, g : Grammars, name : Names, sem : Sems \cup {NoSem}, asmodel : BOOLEAN]
    \cup  [op : {"parse"}, g : Grammars, sem : Sems \cup {NoSem}, asmodel : BOOLEAN]
    \cup  [op : {"source"}, g : Grammars, name : Names]
+   \cup  [op : {"load"}, g : Grammars]                         \* Grammar.load(json of g), then parse
    \cup  [op : {"modelparse"}, h : 1..MaxHandles]
    \cup  [op : {"failedparse"}, h : 1..MaxHandles]
 
 VARIABLES cache,     \* key -> model id
           models,    \* model id -> [g, sem, name]     the shared, mutable grammar model objects
           handles,   \* sequence of [m |-> model id, ideal |-> the response the creating call promised]
+          clobbered, \* the by-name registry of classes that JSON loading uses has had a library class replaced by a synthesized one
           resp, last, ncalls
-vars == <<cache, models, handles, resp, last, ncalls>>
+vars == <<cache, models, handles, clobbered, resp, last, ncalls>>
 
 EffSem(sem, asmodel) == IF sem # NoSem THEN sem ELSE IF asmodel THEN "builder" ELSE "none"
 Key(g, name, sem, asmodel) == IF AsIs THEN <<name, g, sem>> ELSE <<name, g, sem, asmodel>>
 NewId == Cardinality(DOMAIN models) + 1
 
-Init == cache = <<>> /\ models = <<>> /\ handles = <<>> /\ resp = [k |-> "none"] /\ last = [op |-> "none"] /\ ncalls = 0
+Init == cache = <<>> /\ models = <<>> /\ handles = <<>> /\ clobbered = FALSE /\ resp = [k |-> "none"] /\ last = [op |-> "none"] /\ ncalls = 0
+
+\* building object-model nodes synthesizes a class per rule type; as coded, every new class registers itself BY NAME for JSON loading,
+\* replacing whatever had that name (KF-C10-3)
+Clobbers(g, sem) == AsIs /\ g \in Colliding /\ sem = "builder"
 
 \* tatsu.compile(): look up / create the model, then (as coded) set the semantics on the cached object itself
 Lookup(g, name, sem, asmodel) ==
@@ -47,6 +54,7 @@ Compile(c) == /\ c.op = "compile"
                  /\ cache' = (r.key :> r.m) @@ cache
                  /\ models' = (r.m :> r.mdl) @@ models
                  /\ resp' = [k |-> "model", g |-> r.mdl.g, sem |-> r.mdl.sem, name |-> r.mdl.name]
+                 /\ clobbered' = (clobbered \/ Clobbers(r.mdl.g, r.mdl.sem))
                  /\ handles' = IF Len(handles) < MaxHandles
                                THEN Append(handles, [m |-> r.m, ideal |-> [k |-> "parse", g |-> c.g, sem |-> EffSem(c.sem, c.asmodel)]])
                                ELSE handles
@@ -58,6 +66,7 @@ Parse(c) == /\ c.op = "parse"
                /\ cache' = (r.key :> r.m) @@ cache
                /\ models' = (r.m :> r.mdl) @@ models
                /\ resp' = [k |-> "parse", g |-> c.g, sem |-> IF c.sem # NoSem THEN c.sem ELSE r.mdl.sem]
+               /\ clobbered' = (clobbered \/ Clobbers(c.g, IF c.sem # NoSem THEN c.sem ELSE r.mdl.sem))
             /\ UNCHANGED handles
 
 \* to_python_sourcecode(): compile(grammar, name=name) then generate: the source carries the model's name
@@ -66,22 +75,29 @@ Source(c) == /\ c.op = "source"
                 /\ cache' = (r.key :> r.m) @@ cache
                 /\ models' = (r.m :> r.mdl) @@ models
                 /\ resp' = [k |-> "source", g |-> r.mdl.g, name |-> r.mdl.name]
-             /\ UNCHANGED handles
+             /\ UNCHANGED <<handles, clobbered>>
+
+\* Grammar.load(): the classes named in the JSON are looked up by name
+Load(c) == /\ c.op = "load"
+           /\ resp' = IF clobbered THEN [k |-> "failed"] ELSE [k |-> "parse", g |-> c.g, sem |-> "none"]
+           /\ UNCHANGED <<cache, models, handles, clobbered>>
 
 \* a caller parses with a model object it got earlier: it sees whatever the shared object holds NOW
 ModelParse(c) == /\ c.op \in {"modelparse", "failedparse"} /\ c.h <= Len(handles)
                  /\ resp' = IF c.op = "failedparse" THEN [k |-> "failed"]
                             ELSE [k |-> "parse", g |-> models[handles[c.h].m].g, sem |-> models[handles[c.h].m].sem]
+                 /\ clobbered' = (clobbered \/ (c.op = "modelparse" /\ Clobbers(models[handles[c.h].m].g, models[handles[c.h].m].sem)))
                  /\ UNCHANGED <<cache, models, handles>>
 
 Next == /\ ncalls < MaxCalls
-        /\ \E c \in Calls : /\ (Compile(c) \/ Parse(c) \/ Source(c) \/ ModelParse(c))
+        /\ \E c \in Calls : /\ (Compile(c) \/ Parse(c) \/ Source(c) \/ Load(c) \/ ModelParse(c))
                             /\ last' = c /\ ncalls' = ncalls + 1
 Spec == Init /\ [][Next]_vars
 
 Ideal(c) == CASE c.op = "compile" -> [k |-> "model", g |-> c.g, sem |-> EffSem(c.sem, c.asmodel), name |-> c.name]
               [] c.op = "parse" -> [k |-> "parse", g |-> c.g, sem |-> EffSem(c.sem, c.asmodel)]
               [] c.op = "source" -> [k |-> "source", g |-> c.g, name |-> c.name]
+              [] c.op = "load" -> [k |-> "parse", g |-> c.g, sem |-> "none"]
               [] c.op = "modelparse" -> handles[c.h].ideal
               [] c.op = "failedparse" -> [k |-> "failed"]
               [] OTHER -> [k |-> "none"]
